@@ -4,6 +4,7 @@ Line-protocol driver for the C18 models (shard assignment + master state machine
   assign <start> <shift> <startShard> <numShards> <rf> | n1 n2 ...
   modify <start> <shift> <startShard> <cfgShards> <rf> | n1 n2 ... | s:r,r s:r,r ...
   reset | up <id> | down <id> | dbcfg <db> | dropdb <db> | asg <db> s:r,r ...
+  burst up <id> down <id> ...   (a batch of node events; answers the state after the last one)
 -/
 import LinVerif.Util.Proto
 import LinVerif.Model.Master
@@ -46,6 +47,18 @@ def showState (st : St) : String :=
       s!"{db}.{sid}:{s.state}:{s.leader}:{showReplicas s.replicas}")))
   s!"live={showReplicas live} dbs={showReplicas (st.dbs.toArray.qsort (· < ·)).toList} " ++ " ".intercalate body
 
+def parseBurst : List String → Option (List Event)
+  | [] => some []
+  | "up" :: id :: rest => do
+    let i ← id.toNat?
+    let t ← parseBurst rest
+    some (.nodeUp i :: t)
+  | "down" :: id :: rest => do
+    let i ← id.toNat?
+    let t ← parseBurst rest
+    some (.nodeDown i :: t)
+  | _ => none
+
 def step (st : St) (ws : List String) : St × String :=
   match ws with
   | "assign" :: rest =>
@@ -69,6 +82,10 @@ def step (st : St) (ws : List String) : St × String :=
       | _, _, _, _, _, _, _ => (st, "bad-op")
     | _ => (st, "bad-op")
   | ["reset"] => (St.init, "ok")
+  | "burst" :: rest =>
+    match parseBurst rest with
+    | some evs => let s := Master.run st evs; (s, showState s)
+    | none => (st, "bad-op")
   | ["up", id] =>
     match id.toNat? with
     | some i => let s := Master.step st (.nodeUp i); (s, showState s)
